@@ -610,3 +610,13 @@ func failf(format string, args ...any) error { return fmt.Errorf(format, args...
 type lazy func() string
 
 func (l lazy) String() string { return l() }
+
+// hb renders bytes for an observation string: short slices literally, long ones by
+// length and FNV-64 (equality of observations is what matters, not readability).
+func hb(b []byte) string {
+	if len(b) <= 64 {
+		return hex.EncodeToString(b)
+	}
+
+	return fmt.Sprintf("%dB#%016x", len(b), ev.Hash(b))
+}
